@@ -288,6 +288,11 @@ class Env:
             # must go on holding the old content until it holds the complete new content, like any other destination
             open(d + ".target", "wb").write(OLD)
             os.symlink(d + ".target", os.path.join(d, DEST))
+        elif destmode == "hardlink":
+            # the output path exists and is another directory entry of the input's inode (cp -l in out): it is a path
+            # "not being patched in place" (-o differs from the input), so it holds old-or-new at every instant and the
+            # input keeps its bytes
+            os.link(os.path.join(d, INPUT), os.path.join(d, DEST))
         before = listing(d)
         tr = d + ".trace"
         cmd = ["strace", "-f", "-o", tr, "-s", "16777216", "-xx", "-e", "trace=" + TRACE_SET]
@@ -363,7 +368,7 @@ def run(ctx):
     findings, samples = [], []
     stats = Counter()
     branches = Counter()
-    scen = [(s, dm) for s in strategies + controls for dm in ("exists", "absent")] + [(s, "symlink") for s in strategies]
+    scen = [(s, dm) for s in strategies + controls for dm in ("exists", "absent")] + [(s, "symlink") for s in strategies] + [(s, "hardlink") for s in strategies]
     only = None
     if ctx.get("replay_ops") is not None:
         only = []
@@ -395,6 +400,9 @@ def run(ctx):
         new = r["after"].get(DEST)
         samples.append("%s n=%s dest=%s calls=%s" % (op, m["n"], m["dest"], "".join(t[0][0] for t in tr["ops"])))
         branches["dry:%s:%s:shape=%s" % (s, dm, m["shape"])] += 1
+        if not ctl and r["after"].get(INPUT) != r["before"].get(INPUT):
+            findings.append(Finding("counterexample", TIE, "Relic.Props.C13.commit_atomic", op, "input file unmodified (the output path is not the input path)",
+                                    "input-modified; directory: %s" % show(r["after"])))
         # tie: model final state = real final state
         if model_listing(m["final"]) != show(r["after"]):
             findings.append(Finding("broken-tie", TIE, TIE_THEOREM, op, model_listing(m["final"]), show(r["after"]),
@@ -520,7 +528,7 @@ def run(ctx):
         if bad:
             findings.append(Finding("counterexample", TIE, thm, op,
                                     "dest in {old %s, new %s}, present if it was, input unchanged, no temp file after a handled error"
-                                    % (sig(OLD) if dm in ("exists", "symlink") else "absent", sig(new) if new is not None else "?"),
+                                    % (sig(OLD) if dm in ("exists", "symlink") else "input" if dm == "hardlink" else "absent", sig(new) if new is not None else "?"),
                                     "%s; directory: %s (rc=%s)" % (" ".join(bad), show(r["after"]), r["rc"]),
                                     "call #%d of the output phase (%s); completed calls: %s" % (j, " ".join(dops[min(j, len(dops) - 1)][:2]), "".join(t[0] for t in got))))
     # ---- negative controls: each non-atomic writer must be flagged by the model on its trace AND by a real kill
